@@ -11,7 +11,8 @@ from ..oracle import lexical
 from ..oracle.schema import clark, schema
 from ..run import hyp_search, mix
 
-RULE = ('(a) exhaustive layer (constructor route also with a None keyword for another attribute, which must change nothing): every declared (element, attribute) pair x {oracle-valid value, near-miss invalid value} '
+RULE = ('for every class with a required attribute: an instance lacking it is refused also below an unchecked element of a checked tree; '
+        '(a) exhaustive layer (constructor route also with a None keyword for another attribute, which must change nothing): every declared (element, attribute) pair x {oracle-valid value, near-miss invalid value} '
         'x {constructor keyword, dot assignment, parser (a one-element document read with parse_musicxml)}; per '
         'element a fixed list of undeclared names (other elements\' attribute names and made-up identifiers) on the '
         'constructor and dot routes.  (b) Hypothesis-drawn histories of set / overwrite / set-None / failing set on '
@@ -323,8 +324,37 @@ def history(el, ops):
     return None
 
 
+def shielded(el):
+    """an element lacking a schema-required attribute is refused wherever it sits: also below an UNCHECKED element
+    inside a checked tree (checked measure > unchecked note > the element)"""
+    s = schema()
+    t = s.element_type[el]
+    req = [a for a in s.attributes_of(t) if a['required']]
+    if not req:
+        return None, 'no-required-attribute'
+    inp = {'layer': 'shielded', 'element': el}
+    r = call(cls_for(el), *ctor_args(el))
+    if not r.ok:
+        return None, 'unbuildable'
+    alone = call(r.value.to_string)
+    if alone.ok or alone.etype != 'XSDAttributeRequiredException':
+        return None, 'other-verdict-alone'        # (children missing first, ...): the pair layer judges those
+    leaf = call(cls_for(el), *ctor_args(el)).value
+    mid, root = driver.fresh('note', False), driver.fresh('measure', True)
+    mid.add_child(leaf)
+    root.add_child(mid)
+    rr = call(root.to_string)
+    if rr.ok or rr.etype != 'XSDAttributeRequiredException':
+        return F('serialised-without-required-attribute', t, inp,
+                 {'measure > unchecked note > element': rr.verdict(), 'missing': [a['qname'] for a in req]},
+                 'XSDAttributeRequiredException, as for the element alone', rr.site), 'run'
+    return None, 'run'
+
+
 def replay_case(rec):
     inp = rec['input']
+    if inp['layer'] == 'shielded':
+        return shielded(inp['element'])[0]
     if inp.get('after_warm_up') is not None:
         warm_up(inp['after_warm_up'])
     if inp['layer'] == 'pair':
@@ -359,7 +389,7 @@ def shards(ctx):
         els = sorted(s.element_type)
         sel = set(els[(ctx.seed % 3)::3])
         obs = [o for o in obs if (o[0] == 'pair' and o[3] != 'parser') or o[1] in sel]
-    jobs = [{'mode': 'enum', 'obs': part, 'warm': i % 2 == 1} for i, part in enumerate(gen.chunk(obs, 16))]
+    jobs = [{'mode': 'enum', 'obs': part, 'warm': i % 2 == 1, 'first': i == 0} for i, part in enumerate(gen.chunk(obs, 16))]
     for i in range(8):
         jobs.append({'mode': 'history', 'index': i})
     return jobs
@@ -368,6 +398,14 @@ def shards(ctx):
 def run_shard(ctx, shard, acc):
     s = schema()
     if shard['mode'] == 'enum':
+        if shard.get('first'):
+            for el in sorted(s.element_type):
+                f, status = shielded(el)
+                acc.count('shielded-' + status)
+                if status == 'run':
+                    acc.case({'layer': 'shielded', 'element': el}, True)
+                if f:
+                    acc.fail(f, raise_=False)
         if shard.get('warm'):
             # half of the shards run after every class's attribute table has been built (in a seed-dependent order),
             # the other half build them on demand: the verdicts must not depend on that history
